@@ -33,6 +33,7 @@
 #include <functional>
 #include <iostream>
 #include <string>
+#include <tuple>
 #include <type_traits>
 #include <vector>
 
@@ -149,11 +150,45 @@ struct act_um
    {};
 };
 
-// run one rule through parse<>; `st` (if any) receives the converted value
+// a reader handing out one byte per call: over a buffer_input a rule has to ask for every byte it reads
+struct mem_reader
+{
+   const char* p;
+   std::size_t left;
+
+   std::size_t operator()( char* buffer, const std::size_t length )
+   {
+      if( ( length == 0 ) || ( left == 0 ) ) {
+         return 0;
+      }
+      *buffer = *p++;
+      --left;
+      return 1;
+   }
+};
+
+template< typename Rule, template< typename... > class Action, pegtl::apply_mode A, bool Stored, typename In, typename... St >
+std::string run_rule_on( In& in, St&... st );
+
+// run one rule through parse<>; `st` (if any) receives the converted value.  The same call over a buffer input (fed one byte at a time,
+// capacity: the whole text) must give the same answer: otherwise `|buffered:<answer>` is appended.
 template< typename Rule, template< typename... > class Action, pegtl::apply_mode A, bool Stored, typename... St >
 std::string run_rule( const char* b, const std::size_t n, St&... st )
 {
+   std::string twin;
+   {
+      std::tuple< St... > copy( st... );
+      pegtl::buffer_input< mem_reader, pegtl::eol::lf_crlf, std::string, 1 > bin( "c15", n + 16, mem_reader{ b, n } );
+      twin = std::apply( [ & ]( auto&... c ) { return run_rule_on< Rule, Action, A, Stored >( bin, c... ); }, copy );
+   }
    pegtl::memory_input< pegtl::tracking_mode::eager, pegtl::eol::lf_crlf, const char* > in( b, b + n, "c15" );
+   const std::string r = run_rule_on< Rule, Action, A, Stored >( in, st... );
+   return ( r == twin ) ? r : ( r + "|buffered:" + twin );
+}
+
+template< typename Rule, template< typename... > class Action, pegtl::apply_mode A, bool Stored, typename In, typename... St >
+std::string run_rule_on( In& in, St&... st )
+{
    try {
       const bool ok = pegtl::parse< Rule, Action, pegtl::normal, A, pegtl::rewind_mode::required >( in, st... );
       if( ok ) {
